@@ -444,6 +444,10 @@ def attribute(ctx, case, out, clause):
     prop_check on this input (hint computed inside Coq)."""
     if not _well_formed(case, out) or "prop_check" not in (clause or ""):
         return None
+    if _is_exact(case):
+        # C03_dijkstra_optimal_dropped_when_key_reflects: integer image, weight 0, path sums far below 2^52 -
+        # every occurring distance has dropped bit 0, the loop as written is optimal: F7 cannot be the cause
+        return None
     e = evaluate_cases(ctx, [case], [out])[0]
     if e is None or e[0] != 1 or e[1] == 1:
         return None
